@@ -4,12 +4,13 @@ go 1.25
 
 require (
 	github.com/anishathalye/porcupine v1.3.0
+	github.com/cilium/ebpf v0.12.3
 	github.com/codelaboratoryltd/bng v0.0.0-00010101000000-000000000000
 	go.uber.org/zap v1.27.0
 )
 
 require (
-	github.com/cilium/ebpf v0.12.3 // indirect
+	github.com/google/uuid v1.6.0 // indirect
 	github.com/insomniacslk/dhcp v0.0.0-20231206064809-8c70d406f6d2 // indirect
 	github.com/josharian/native v1.1.0 // indirect
 	github.com/pierrec/lz4/v4 v4.1.18 // indirect
